@@ -28,6 +28,7 @@ func runC08(c *Ctx) {
 	c.Rule("C08.B4", "peer-sized allocations only after the announced bytes have arrived", 6)
 	c.Rule("C08.B5", "no panic in decoders; third-party parsers only under recover; IO loops and workers under recover", 12)
 	c.Rule("C08.B6", "decode failure is local: error reply on the stream or close of the connection", 4)
+	c.Rule("C08.B7", "HTTP/2 frame reader: bounded accesses, re-read loops make progress (no unbounded re-parse of one frame), all-or-nothing consumption", 5)
 	c.Assumptions = append(c.Assumptions,
 		"lengths are mathematical integers on a 64-bit int; uint32 wrap-around (frames >= 4 GiB) is outside the model",
 		"IoBuffer axioms and TarsRequest contract as in C07",
@@ -45,6 +46,7 @@ func runC08(c *Ctx) {
 	br.runB5()
 	c08Loops(c)
 	c08Dispatch(c)
+	runC07H2(c, "C08.B1", "C08.B7")
 }
 
 // B4
